@@ -247,6 +247,9 @@ func c15HistoryRun(calls []run.Call, schedules [][]int, loose, multi []bool) str
 			}
 			if first[i] == nil {
 				first[i] = &o
+				if pr := ast.Parse(calls[i].Expr); pr.Verdict == ast.Out && !staticPreemptShape(calls[i].Expr) && !(o.Failed && o.Cats&model.Syntax != 0) {
+					return fmt.Sprintf("step %d: expression %d (%q) is not in the grammar (%s) but the outcome is %s", step, i, truncate(calls[i].Expr, 120), pr.Reason, o)
+				}
 				continue
 			}
 			if msg := run.SameOutcomeMF(*first[i], o, loose[i], multi[i]); msg != "" {
@@ -309,6 +312,23 @@ func TestC15_History(t *testing.T) {
 			calls[i] = run.Call{API: "search", Expr: ast.Render(e), Doc: &node}
 			key += calls[i].Expr + "\x00" + doc.JSON() + "\x00"
 		}
+		// near-duplicates: the text of one of the expressions with a character
+		// put before or after it. Blank, tab, CR and LF are insignificant
+		// there; every other character makes the text a different (invalid)
+		// expression, whatever was evaluated before
+		for k := rapid.IntRange(0, 2).Draw(t, "nvariants"); k > 0; k-- {
+			i := rapid.IntRange(0, n-1).Draw(t, "variantof")
+			ws := gen.Pick(t, "oddws", []string{" ", "\t", "\n", "\r", "\v", "\f", "\u00a0", "\u0085", "\u2028", "\u2029", "\u3000", "\u1680", "\u2003", "\ufeff", "\u200b", "\x00", "\x1f", "\x7f"})
+			text := calls[i].Expr + ws
+			if rapid.Bool().Draw(t, "leading") {
+				text = ws + calls[i].Expr
+			}
+			calls = append(calls, run.Call{API: "search", Expr: text, Doc: calls[i].Doc})
+			loose = append(loose, loose[i])
+			multi = append(multi, multi[i])
+			key += text + "\x00"
+		}
+		n = len(calls)
 		nsch := rapid.IntRange(2, 4).Draw(t, "nschedules")
 		schedules := make([][]int, nsch)
 		for i := range schedules {
